@@ -259,6 +259,17 @@ pub fn at_program(s: &Value, i: &Value, mode: &str) -> String {
             None => format!("{st}[{it}]"),
         },
         "lit" => format!("{st}[{it}]"),
+        // an array of equal elements written in repeat form, the element a parameter, length and index literals: what the
+        // folder decides from the two literals must be what indexing the array gives (also one past the end)
+        "rep" => {
+            let xs = items(s, "es");
+            if k(s) == "array" && xs.windows(2).all(|w| w[0] == w[1]) {
+                let elem = xs.first().map(render_value).unwrap_or_else(|| "0".into());
+                format!("f := (x: any) -> any {{ return [x; {}][{it}]; }}; f({elem})", xs.len())
+            } else {
+                format!("{st}[{it}]")
+            }
+        }
         "var" => format!("s := {st}; i := {it}; s[i]"),
         "fn" | "fnu" => format!("f := (s: {}, i: int) -> any {{ return s[i]; }}; f({st}, {it})", param_type(s, mode)),
         // the operation sits in an INNER function; its operands are parameters of the enclosing function, captured
@@ -276,6 +287,15 @@ pub fn len_program(s: &Value, mode: &str) -> String {
             None => format!("std.len({st})"),
         },
         "lit" => format!("std.len({st})"),
+        "rep" => {
+            let xs = items(s, "es");
+            if k(s) == "array" && xs.windows(2).all(|w| w[0] == w[1]) {
+                let elem = xs.first().map(render_value).unwrap_or_else(|| "0".into());
+                format!("g := (x: any) -> int {{ return std.len([x; {}]); }}; g({elem})", xs.len())
+            } else {
+                format!("std.len({st})")
+            }
+        }
         "var" => format!("s := {st}; std.len(s)"),
         "fn" | "fnu" => format!("g := (s: {}) -> int {{ return std.len(s); }}; g({st})", param_type(s, mode)),
         "clo" => format!("mk := (s: {}) -> () -> int {{ return () -> int {{ return std.len(s); }}; }}; mk({st})()", param_type(s, "fn")),
@@ -323,6 +343,21 @@ pub fn slice_program(s: &Value, a: &Value, b: &Value, c: &Value, mode: &str, tra
         }
         // the operand is a NAME (exactly typed / union-typed), the bounds are literals: what the folder can decide from the
         // bounds alone must not depend on the operand's static type
+        // the sequence is a LITERAL, one of the bounds that are present is a parameter, the others are literals (ls<n>: the
+        // first bound present counting from position n): a slice of a constant is only known when all three bounds are
+        "ls0" | "ls1" | "ls2" => {
+            let start: usize = mode[2..].parse().unwrap();
+            let texts = [&at, &bt, &ct];
+            match (0..3).map(|d| (start + d) % 3).find(|&i| !texts[i].is_empty()) {
+                None => slice_program(s, a, b, c, "lit", trailing_colon),
+                Some(which) => {
+                    let mut parts = [at.clone(), bt.clone(), ct.clone()];
+                    parts[which] = "p".into();
+                    let br = brackets(&parts[0], &parts[1], &parts[2], trailing_colon);
+                    format!("f := (p: int) -> any {{ r := {st}{br}; return (r, std.len(r)); }}; f({})", texts[which])
+                }
+            }
+        }
         "fnl" | "fnul" => {
             let br = brackets(&at, &bt, &ct, trailing_colon);
             format!("f := (s: {}) -> any {{ r := s{br}; return (r, std.len(r)); }}; f({st})", param_type(s, if mode == "fnul" { "fnu" } else { "fn" }))
@@ -449,7 +484,7 @@ fn replay(dir: &str, tier: &str) -> Value {
     let bounds = items(axes, "bounds").to_vec();
     let steps = items(axes, "steps").to_vec();
     let thorough = tier == "thorough";
-    let at_modes: &[&str] = if thorough { &["lit", "arrlit", "var", "fn", "fnu", "clo"] } else { &["lit", "arrlit", "fn", "fnu", "clo"] };
+    let at_modes: &[&str] = if thorough { &["lit", "arrlit", "var", "fn", "fnu", "clo", "rep"] } else { &["lit", "arrlit", "fn", "fnu", "clo", "rep"] };
     let at_rows = read_ndjson(&format!("{dir}/seqs_at.ndjson"));
     let slice_rows = read_ndjson(&format!("{dir}/seqs_slice.ndjson"));
     let parts = parallel(|w, nw| {
@@ -549,10 +584,10 @@ fn replay(dir: &str, tier: &str) -> Value {
                     cx.distinct.insert(format!("{s}{want_r}"));
                     let parity = (ri + bi + ci) % 2 == 0;
                     let modes: Vec<&str> = if thorough {
-                        vec!["lit", "arrlit", "var", "fn", "fnu", "clo", "fnl", "fnul"]
+                        vec!["lit", "arrlit", "var", "fn", "fnu", "clo", "fnl", "fnul", "ls0", "ls1", "ls2"]
                     } else {
                         vec!["lit", if parity { "fn" } else { "fnu" }, if (ri + bi) % 2 == 0 { "var" } else { "arrlit" }, if (ri + ci) % 3 == 0 { "clo" } else { "lit" },
-                             if (ri + bi + ci) % 3 == 0 { "fnl" } else { "fnul" }]
+                             if (ri + bi + ci) % 3 == 0 { "fnl" } else { "fnul" }, ["ls0", "ls1", "ls2"][(ri + 2 * bi + ci) % 3]]
                     };
                     for mode in modes {
                         let program = slice_program(s, a, b, c, mode, parity);
